@@ -9,7 +9,7 @@ QUICK = ["MC_exec_basic.cfg", "MC_exec_abstract.cfg", "MC_exec_lists.cfg", "MC_e
          "MC_exec_frag.cfg", "MC_exec_fragq.cfg", "MC_exec_merge.cfg", "MC_exec_merge2.cfg", "MC_exec_mutargs.cfg", "MC_exec_fragvar.cfg", "MC_exec_dirs.cfg", "MC_exec_dirs2.cfg", "MC_exec_s2.cfg", "MC_exec_s2g.cfg", "MC_exec_s2m.cfg", "MC_exec_ops.cfg", "MC_exec_mut.cfg"]
 THOROUGH = QUICK + ["MC_exec_basic5.cfg", "MC_exec_abstract5.cfg", "MC_exec_frag5.cfg", "MC_exec_dirs5.cfg", "MC_exec_lists5.cfg"]
 
-ENGINE_CFGS = [{}, {"list_conc": False, "parent_conc": False, "field_parent_conc": False, "args": "sync"}]
+ENGINE_CFGS = [{}, {"list_conc": False, "parent_conc": False, "field_parent_conc": False, "args": "sync"}, {"cdr": True, "list_conc": False}]
 
 
 def job(j):
@@ -23,7 +23,7 @@ def job(j):
             return
         w = state["world"]
         state["n"] += 1
-        ecfg = dict(ENGINE_CFGS[state["n"] % len(ENGINE_CFGS)])
+        ecfg = dict(ENGINE_CFGS[(state["n"] // 3) % len(ENGINE_CFGS)])
         if rec.get("trs"):
             ecfg["trs"] = tuple(sorted(rec["trs"]))
         resp, cs, doc = execreplay.run_plain(w, rec, ecfg, layout=state["n"] % 2, rename_frags=(True if state["n"] % 3 == 1 else ("op" if state["n"] % 3 == 2 else False)), reverse_defs=(state["n"] % 5 == 2), rename_vars=("shared" if state["n"] % 4 == 0 else (state["n"] % 2 == 0)),
